@@ -334,16 +334,16 @@ def rule_floors(lm):
     ]
 
 
-def rule_notry(lm):
+def rule_notry(lm, classes=('REGISTRY', 'CONTEXT', 'DESCRIPTOR')):
     """engine locks are acquired blockingly: a failed try_lock is indistinguishable from "nothing
     registered" / "no such variable" """
     obs = []
     n = 0
     for b in lm.prog.bodies:
         for c in b.live_calls:
-            if c.callee in ('std::sync::Mutex::<T>::try_lock', 'std::sync::RwLock::<T>::try_read', 'std::sync::RwLock::<T>::try_write'):
+            if c.callee in ('std::sync::Mutex::<T>::try_lock', 'std::sync::RwLock::<T>::try_read', 'std::sync::RwLock::<T>::try_write') and guard_class(c.term['dest']['ty']) in classes:
                 n += 1
                 obs.append(bad('NOTRY', 'NOTRY|%s|%s' % (b.name, c.callee.split('::')[-1]), '%s on a %s lock in %s: under contention the lookup / update silently behaves as if the entry were absent' % (c.callee.split('::')[-1], guard_class(c.term['dest']['ty']), b.name), c.where(), body=b.name, bb=c.bb))
     if n == 0:
-        obs.append(ok('NOTRY', 'NOTRY|none', 'no try_lock / try_read / try_write on any engine lock (%d lock sites are blocking)' % sum(len(v) for v in lm.direct_lock.values())))
+        obs.append(ok('NOTRY', 'NOTRY|none', 'no try_lock / try_read / try_write on a %s lock (%d lock sites are blocking)' % ('/'.join(classes), sum(len(v) for v in lm.direct_lock.values()))))
     return obs
